@@ -15,6 +15,14 @@ spec/Fifo.tla (one action per clock cycle, parameterised by kind and capacity), 
      also at capacities beyond the model-checked ones, validated by FifoTrace.
   4. canaries: faulty software queues (lost message, swapped messages, wrong ready) must be
      rejected by the walk and by FifoTrace; corrupted copies of real traces must be rejected.
+  5. classes built as a chain of queues (enrdy BypassQueue2RTL = two BypassQueue1RTL in series):
+     spec/FifoChain.tla models the composition stage by stage; TLC checks on it everything the
+     statement says except the one clause it does not meet, and is REQUIRED to refute that clause
+     (invariant EnqRdyIffNotFull; counterexample state b1 full / b2 empty).  The class is walked
+     against Fifo.tla of its advertised kind first; if it deviates it is walked against the chain
+     graph (every other deviation keeps its own `replay:...:chain:` key), and the deviations of the
+     chain model from the advertised kind -- computed from the two TLC state graphs, exactly one
+     state -- are reported once under `kind-rule:<class>:<clause>-with-<stage occupancy>`.
 
 NOTE: Trusted base: TLC, Fifo.tla as the statement of the kind rules, the adapters of
 c17_duts.py (legal en/rdy, val/rdy and CL method drivers; the intra-cycle order is left to the
@@ -27,6 +35,7 @@ import collections
 import copy
 import os
 import random
+import re
 
 import tlc
 from common import MachineryError, rng, seed
@@ -34,11 +43,15 @@ from common import MachineryError, rng, seed
 READY = True
 
 MSGS = (1, 2, 3)
-FIELDS = ("enq_rdy", "deq_rdy", "enq_xfer", "deq_xfer", "count", "deq_msg", "count2")
+FIELDS = ("enq_rdy", "deq_rdy", "enq_xfer", "deq_xfer", "count", "deq_msg", "count2", "st2")
 MAX_VIOL_PER_DUT = 8        # distinct (clause, occupancy, offer) mismatches reported per class x capacity
 MAX_RAW_PER_DUT = 60        # raw mismatching transitions after which a walk is abandoned
 
-_GRAPH = {}      # (kind, cap) -> {q tuple -> {act -> (q2 tuple, out dict)}}
+_GRAPH = {}      # (kind, cap) -> {q tuple -> {act -> (q2 tuple, out dict)}}; chain: q = (b1 tuple, b2 tuple)
+CHAIN = "bypass2chain"      # FifoChain.tla (model name in FifoTrace, key of _GRAPH with cap 2)
+CHAIN_CAP = 2
+CHAIN_INIT = ((), ())
+_KIND_DEV = {}   # (chain model, cap) -> {(stage occupancy, clause): {"chain": value, "kind": value}}
 
 
 # ============================================================================================
@@ -55,6 +68,60 @@ def _cfg(kind, cap, view=True, maxhist=0, props=True):
     if props:
         s += "".join("INVARIANT %s\n" % i for i in _INVS) + "PROPERTY StepFifo\n"
     return s
+
+
+_CHAIN_INVS = ("TypeOK", "Bounded", "DeliveredPrefix", "Conservation", "DeqSideExact", "EnqRdyExceptFinding",
+               "CountExact")
+_CHAIN_FINDING_INV = "EnqRdyIffNotFull"
+
+
+def _cfg_chain(view=True, maxhist=0, invs=_CHAIN_INVS, props=True):
+    s = "SPECIFICATION Spec\nCONSTANTS Msgs = {%s}\n MaxHist = %d\n" % (", ".join(map(str, MSGS)), maxhist)
+    s += "VIEW View\n" if view else "CONSTRAINT HistBound\n"
+    s += "".join("INVARIANT %s\n" % i for i in invs)
+    if props:
+        s += "PROPERTY StepFifo\n"
+    return s
+
+
+def _last_state(out):
+    """Last state of the counterexample TLC printed."""
+    blocks = re.findall(r"^State \d+: .*?\n(.*?)(?=\n\s*\n|\Z)", out, re.S | re.M)
+    if not blocks:
+        raise MachineryError("no counterexample in TLC output:\n%s" % out[-2000:])
+    return tlc.parse_state(blocks[-1]), len(blocks)
+
+
+def _model_check_chain(res, maxhist):
+    """FifoChain.tla: everything but the finding holds; the finding clause is refuted by TLC with the
+    expected counterexample (guards against a vacuous chain spec and documents the finding)."""
+    jobs = [("view", _cfg_chain(True, 0)), ("hist<=%d" % maxhist, _cfg_chain(False, maxhist)),
+            ("finding", _cfg_chain(True, 0, invs=(_CHAIN_FINDING_INV,), props=False))]
+    runs = _par(lambda j: (j[0], tlc.run("FifoChain", cfg_text=j[1], coverage=True, timeout=1800, workers=2)), jobs)
+    for tag, r in runs:
+        res.add_tlc(r)
+        if tag == "finding":
+            if r.violated != [_CHAIN_FINDING_INV]:
+                raise MachineryError("FifoChain: TLC did not refute %s (the chain spec does not exhibit the finding): "
+                                     "%s %s\n%s" % (_CHAIN_FINDING_INV, r.violated, r.errors, r.out[-1500:]))
+            st, n = _last_state(r.out)
+            if not (len(st["b1"]) == 1 and len(st["b2"]) == 0):
+                raise MachineryError("FifoChain: counterexample to %s ends in an unexpected state %s" % (_CHAIN_FINDING_INV, st))
+            res.note("chain_finding_counterexample", {"invariant": _CHAIN_FINDING_INV, "states": n,
+                                                      "last": {"b1": list(st["b1"]), "b2": list(st["b2"])}})
+            continue
+        if r.violated:
+            res.violation("model:chain,%s:%s" % (tag, r.violated), "FifoChain.tla violates %s (%s)" % (r.violated, tag),
+                          r.out[-3000:])
+        elif not r.ok:
+            raise MachineryError("TLC failed on FifoChain %s: %s\n%s" % (tag, r.errors, r.out[-2000:]))
+        for act in ("Cycle", "Reset"):
+            if r.coverage.get(act, (0, 0))[1] == 0:
+                raise MachineryError("action %s never taken in FifoChain %s (vacuous)" % (act, tag))
+        if tag == "view" and r.distinct < (1 + len(MSGS)) ** 2:
+            raise MachineryError("FifoChain: only %d states" % r.distinct)
+    res.note("model_check_chain", {"invariants": list(_CHAIN_INVS) + ["StepFifo"], "refuted_as_expected": _CHAIN_FINDING_INV,
+                                   "max_accepted": maxhist})
 
 
 def _par(fn, items, nthreads=None):
@@ -125,6 +192,68 @@ def _load_graphs(res, caps):
         _GRAPH[(k, c)] = g
 
 
+def _load_chain_graph(res):
+    key = (CHAIN, CHAIN_CAP)
+    if key in _GRAPH:
+        return
+    r, states, init, edges = tlc.dump_graph("FifoChain", cfg_text=_cfg_chain(True, 0, invs=(), props=False))
+    if not r.ok:
+        raise MachineryError("TLC failed dumping FifoChain: %s\n%s" % (r.errors, r.out[-2000:]))
+    res.add_tlc(r)
+    g = {}
+    for (s, d, name, args) in edges:
+        q = (tuple(states[s]["b1"]), tuple(states[s]["b2"]))
+        act = "Reset" if name == "Reset" else (bool(args[0]), int(args[1]), bool(args[2]))
+        dst = ((tuple(states[d]["b1"]), tuple(states[d]["b2"])), states[d]["out"])
+        old = g.setdefault(q, {}).get(act)
+        if old is not None and old != dst:
+            raise MachineryError("FifoChain graph: outputs depend on more than <<b1, b2>> at %s %s" % (q, act))
+        g[q][act] = dst
+    if len(init) != 1 or (tuple(states[next(iter(init))]["b1"]), tuple(states[next(iter(init))]["b2"])) != CHAIN_INIT:
+        raise MachineryError("FifoChain graph: unexpected initial states")
+    if len(g) != (1 + len(MSGS)) ** 2:
+        raise MachineryError("FifoChain graph: %d buffer states, expected %d" % (len(g), (1 + len(MSGS)) ** 2))
+    for q, acts in g.items():
+        if len(acts) != 2 * (1 + len(MSGS)) + 1:
+            raise MachineryError("FifoChain graph: %d actions at %s" % (len(acts), q))
+    _GRAPH[key] = g
+
+
+def _kind_deviations(res, kind):
+    """Where does the chain model differ from Fifo.tla of the advertised kind (same capacity)?  Both TLC
+    state graphs are compared at every chain state <<b1, b2>> (contents b2 o b1) and every offer, on all
+    outputs and on the next contents.  Result: {(stage occupancy, first differing output): values}.
+    The only deviation there may be is the documented one; anything else means FifoChain.tla is not
+    the spec this check was written around."""
+    gc, gk = _GRAPH[(CHAIN, CHAIN_CAP)], _GRAPH[(kind, CHAIN_CAP)]
+    dev = {}
+    n = 0
+    for (s1, s2), acts in gc.items():
+        q = s2 + s1
+        for act, (n2, exp) in acts.items():
+            kq2, kexp = gk[q][act]
+            n += 1
+            f = next((f for f in FIELDS if f in kexp and exp[f] != kexp[f]), None)
+            if f is None and n2[1] + n2[0] != kq2:
+                f = "next-contents"
+            if f is not None:
+                d = dev.setdefault(((len(s1), len(s2)), f), {"chain": exp.get(f), "kind": kexp.get(f), "offers": set()})
+                d["offers"].add(_act_str(act))
+    want = {((1, 0), "enq_rdy")}
+    if set(dev) != want or dev[((1, 0), "enq_rdy")]["chain"] is not False:
+        raise MachineryError("FifoChain.tla differs from Fifo.tla(%s, %d) at %s, expected exactly %s"
+                             % (kind, CHAIN_CAP, sorted(dev), sorted(want)))
+    _KIND_DEV[(CHAIN, CHAIN_CAP)] = dev
+    res.note("chain_vs_kind_graph_comparison", {"transitions_compared": n, "deviations": [
+        {"stages": list(k[0]), "output": k[1], "chain": v["chain"], "kind": v["kind"], "offers": sorted(v["offers"])}
+        for k, v in sorted(dev.items())]})
+
+
+def _kind_rule_name(st, clause, value):
+    return "%s-%s-with-%s" % (clause, "high" if value else "low",
+                              "-".join("q%d-%s" % (i + 1, "full" if n else "empty") for i, n in enumerate(st)))
+
+
 def _diff(obs, exp):
     """First output (in a fixed order) on which the implementation differs from the spec, or None."""
     if obs.get("illegal"):
@@ -138,7 +267,7 @@ def _diff(obs, exp):
             if o is not None and o != e:
                 return "deq_msg"
             continue
-        if o is None:
+        if o is None or f not in exp:
             continue
         if o != exp[f]:
             return f
@@ -149,12 +278,17 @@ def _act_str(act):
     return "Reset" if act == "Reset" else "enq=%d,deq=%d" % (act[0], act[2])
 
 
-def walk(dut_factory, graph, has_reset, name, cap, limit=MAX_VIOL_PER_DUT):
+def _occ(q):
+    """Number of messages in a spec state: a contents tuple, or a tuple of stage buffers."""
+    return sum(len(x) if isinstance(x, tuple) else 1 for x in q)
+
+
+def walk(dut_factory, graph, has_reset, name, cap, limit=MAX_VIOL_PER_DUT, spec_init=()):
     """Explore the product of spec contents and implementation control state; apply every spec
     transition from every reachable product state.  Returns a dict of statistics and the list
     of mismatches (each with the shortest known action path from the initial state)."""
     dut = dut_factory()
-    init = ((), dut.sig())
+    init = (spec_init, dut.sig())
     cur = init
     dest = {init: {}}                     # product state -> {act: product state | None}
     acts_of = lambda ps: [a for a in graph[ps[0]] if a != "Reset" or has_reset]
@@ -205,7 +339,7 @@ def walk(dut_factory, graph, has_reset, name, cap, limit=MAX_VIOL_PER_DUT):
 
     def mismatch(ps, act, exp, obs, bad):
         nonlocal dut, cur
-        viol.append({"clause": bad, "len": len(ps[0]), "q": list(ps[0]), "sig": list(ps[1]), "act": act,
+        viol.append({"clause": bad, "len": _occ(ps[0]), "q": list(ps[0]), "sig": list(ps[1]), "act": act,
                      "expected": exp, "observed": obs, "path": path_to(ps)})
         dest[ps][act] = None
         dut = dut_factory()
@@ -303,6 +437,11 @@ def _walk_job(job):
         return _seeded_make(entry, cap, "walk%d" % n[0])
 
     r = walk(factory, _GRAPH[(entry.kind, cap)], has_reset, name, cap)
+    if entry.chain and r["violations"]:
+        # a composition of queues that does not meet its advertised kind: walk the model of the composition
+        rk = r
+        r = walk(factory, _GRAPH[(entry.chain, cap)], has_reset, name, cap, spec_init=CHAIN_INIT)
+        r["kind_walk"] = rk
     r["shim"] = c17_duts.shim_used()
     return r
 
@@ -313,35 +452,110 @@ def _pool():
     return ProcessPoolExecutor(max_workers=os.cpu_count() or 4, mp_context=multiprocessing.get_context("fork"))
 
 
-def _report_walk(res, r, kind):
+def _viol_detail(name, cap, v, **kw):
+    d = {"dut": name, "cap": cap, "path": [list(a) if a != "Reset" else a for a in v["path"]],
+         "act": list(v["act"]) if v["act"] != "Reset" else "Reset", "clause": v["clause"],
+         "expected": v["expected"], "observed": v["observed"], "control_state": v["sig"]}
+    d.update(kw)
+    return d
+
+
+def _report_walk(res, r, kind, entry=None):
+    """Returns the model (kind of FifoTrace) the class's random histories are validated against."""
     name, cap = r["name"], r["cap"]
+    rk = r.get("kind_walk")
+    if rk is not None:
+        _report_kind_walk(res, r, rk, kind, entry)
     for v in r["violations"]:
+        if rk is not None:
+            key = "replay:%s:cap=%d:chain:%s:%s:%s" % (name, cap, v["clause"],
+                                                       ",".join("b%d=%d" % (i + 1, len(b)) for i, b in enumerate(v["q"])),
+                                                       _act_str(v["act"]))
+            what = ("%s (capacity %d) as the series composition FifoChain.tla: stages holding %s, offer %s -> %s "
+                    "differs from the composition: expected %s, observed %s"
+                    % (name, cap, [list(b) for b in v["q"]], _act_str(v["act"]), v["clause"], _short(v["expected"]),
+                       _short(v["observed"])))
+            res.violation(key, what, _viol_detail(name, cap, v, model=entry.chain))
+            continue
         key = "replay:%s:cap=%d:%s:len=%d:%s" % (name, cap, v["clause"], v["len"], _act_str(v["act"]))
         res.violation(key,
                       "%s (kind %s, capacity %d): holding %d message(s), offer %s -> %s differs from Fifo.tla: "
                       "expected %s, observed %s" % (name, kind, cap, v["len"], _act_str(v["act"]), v["clause"],
                                                     _short(v["expected"]), _short(v["observed"])),
-                      {"dut": name, "cap": cap, "path": [list(a) if a != "Reset" else a for a in v["path"]],
-                       "act": list(v["act"]) if v["act"] != "Reset" else "Reset", "clause": v["clause"],
-                       "expected": v["expected"], "observed": v["observed"], "control_state": v["sig"]})
+                      _viol_detail(name, cap, v))
     if not r["violations"] and r["spec_states"] != r["spec_states_total"]:
         raise MachineryError("%s cap=%d: only %d of %d spec states reached without any mismatch"
                              % (name, cap, r["spec_states"], r["spec_states_total"]))
+    return kind if rk is None else entry.chain
+
+
+def _report_kind_walk(res, r, rk, kind, entry):
+    """A chain class deviates from Fifo.tla of its advertised kind (walk rk).  A deviation is *explained* when,
+    at the chain state given by the contents and the observed stage occupancy, the class did exactly what
+    FifoChain.tla does and FifoChain.tla is known (graph comparison, _KIND_DEV) to differ from the kind in that
+    output at that stage occupancy.  All explained deviations of one (stage occupancy, output) are ONE
+    violation `kind-rule:...`; every other deviation is reported like for any other class."""
+    name, cap = r["name"], r["cap"]
+    dev = _KIND_DEV[(entry.chain, cap)]
+    gc = _GRAPH[(entry.chain, cap)]
+    try:
+        idx = [rk["signames"].index("s." + x) for x in entry.stages]
+    except ValueError:
+        raise MachineryError("%s: stage full bits %s are not among the control signals" % (name, entry.stages))
+    explained = {}
+    for v in rk["violations"]:
+        st = tuple(v["sig"][i] for i in idx)
+        q = tuple(v["q"])
+        ok = False
+        if v["act"] != "Reset" and (st, v["clause"]) in dev and len(st) == 2 and st[0] + st[1] == len(q):
+            cstate = (q[st[1]:], q[:st[1]])               # (b1, b2): b2 holds the older messages
+            ok = cstate in gc and _diff(v["observed"], gc[cstate][v["act"]][1]) is None
+        if ok:
+            explained.setdefault((st, v["clause"]), []).append(v)
+            continue
+        key = "replay:%s:cap=%d:%s:len=%d:%s" % (name, cap, v["clause"], v["len"], _act_str(v["act"]))
+        res.violation(key,
+                      "%s (kind %s, capacity %d): holding %d message(s) (stages %s), offer %s -> %s differs from "
+                      "Fifo.tla and is not the documented behaviour of the series composition: expected %s, observed %s"
+                      % (name, kind, cap, v["len"], list(st), _act_str(v["act"]), v["clause"], _short(v["expected"]),
+                         _short(v["observed"])),
+                      _viol_detail(name, cap, v))
+    for (st, clause), vs in sorted(explained.items()):
+        v = min(vs, key=lambda x: (len(x["path"]), _act_str(x["act"])))
+        key = "kind-rule:%s:%s" % (name, _kind_rule_name(st, clause, dev[(st, clause)]["chain"]))
+        res.violation(key,
+                      "%s (advertised kind %s, capacity %d): with stage occupancy %s (%d message(s) held) %s is %s where "
+                      "the kind rule of Fifo.tla says %s; everything else the class does is the series composition "
+                      "FifoChain.tla (e.g. offers %s after %d cycle(s): expected %s, observed %s)"
+                      % (name, kind, cap, list(st), v["len"], clause, dev[(st, clause)]["chain"],
+                         dev[(st, clause)]["kind"], _act_str(v["act"]), len(v["path"]), _short(v["expected"]),
+                         _short(v["observed"])),
+                      _viol_detail(name, cap, v, stages=list(st),
+                                   offers_observed=sorted({_act_str(x["act"]) for x in vs})))
+        res.count("kind_rule_deviations_explained_by_chain_model", len(vs))
 
 
 def _short(d):
-    return {k: (v[0] if isinstance(v, tuple) and v else (None if v == () else v)) for k, v in d.items() if k != "order"}
+    return {k: ((v[0] if v else None) if k == "deq_msg" and isinstance(v, tuple) else v) for k, v in d.items()
+            if k != "order"}
 
 
 def _graph_walks(res, cat, caps, eff):
     jobs = [(e.name, c, eff[e.name]) for e in cat for c in e.caps if c in caps]
     jobs.sort(key=lambda j: -j[1])
     kinds = {e.name: e.kind for e in cat}
+    ents = {e.name: e for e in cat}
     with _pool() as ex:
         results = list(ex.map(_walk_job, jobs))
     table = {}
+    models = {}
     for r in results:
-        _report_walk(res, r, kinds[r["name"]])
+        models[(r["name"], r["cap"])] = _report_walk(res, r, kinds[r["name"]], ents[r["name"]])
+        if r.get("kind_walk"):
+            rk = r["kind_walk"]
+            res.add_evals(rk["cycles"])
+            res.count("spec_to_code_transitions_replayed", rk["edges"])
+            res.distinct(("walk-vs-advertised-kind", r["name"], r["cap"]))
         res.add_evals(r["cycles"])
         res.count("spec_to_code_transitions_replayed", r["edges"])
         res.count("spec_to_code_product_states", r["product_states"])
@@ -354,6 +568,8 @@ def _graph_walks(res, cat, caps, eff):
     r0 = results[-1]
     res.sample({"kind": "spec->code walk", "dut": r0["name"], "cap": r0["cap"], "product_states": r0["product_states"],
                 "transitions": r0["edges"], "control_signals": r0["signames"][:8]})
+    res.note("classes_validated_against_chain_model", sorted("%s:cap=%d" % k for k, m in models.items() if m == CHAIN))
+    return models
 
 
 # ============================================================================================
@@ -414,6 +630,67 @@ class FaultyDut:
                 "count": cnt, "count2": len(q)}
 
 
+class ChainSoft:
+    """Two one-entry bypass stages in series as registers and wires, written independently of FifoChain.tla.
+    fault None: must agree with the chain graph everywhere (cross-check of the spec);
+    fault "dup": a message bypassing through stage 1 is also stored there (duplicated)."""
+
+    def __init__(self, fault=None):
+        self.fault = fault
+        self.f = [0, 0]
+        self.b = [None, None]
+
+    def sig(self):
+        return tuple(self.f)
+
+    def signames(self):
+        return ["f1", "f2"]
+
+    def count(self):
+        return sum(self.f)
+
+    def reset(self):
+        self.f = [0, 0]
+
+    def cycle(self, eo, m, do):
+        f, b = self.f, self.b
+        cnt = sum(f)
+        er = not f[0]
+        en1 = bool(eo and er)
+        en2 = bool((en1 or f[0]) and not f[1])
+        m2 = b[0] if f[0] else m
+        val = bool(en2 or f[1])
+        den = bool(val and do)
+        dm = (b[1] if f[1] else m2) if val else None
+        keep1 = not en2 or (self.fault == "dup" and not f[0])
+        if en1 and keep1:
+            b[0] = m
+        nf0 = int((en1 or f[0]) and keep1)
+        if en2 and not den:
+            b[1] = m2
+        nf1 = int((en2 or f[1]) and not den)
+        self.f = [nf0, nf1]
+        return {"enq_rdy": er, "deq_rdy": val, "enq_xfer": en1, "deq_xfer": den, "deq_msg": dm, "count": cnt,
+                "count2": nf0 + nf1, "st2": (nf0, nf1)}
+
+
+def _chain_walk_canaries(res):
+    g = _GRAPH[(CHAIN, CHAIN_CAP)]
+    r = walk(lambda: ChainSoft(), g, True, "chain-soft", CHAIN_CAP, spec_init=CHAIN_INIT)
+    if r["violations"] or r["spec_states"] != len(g):
+        raise MachineryError("FifoChain.tla and the independent register-level model of the chain disagree: %s"
+                             % r["violations"][:2])
+    r = walk(lambda: ChainSoft("dup"), g, True, "chain-dup", CHAIN_CAP, limit=3, spec_init=CHAIN_INIT)
+    if not r["violations"]:
+        raise MachineryError("walk canary: duplicating chain was not noticed")
+    # a queue that honours the kind rule everywhere is NOT the chain: must be told apart in the finding state
+    r = walk(lambda: FaultyDut("bypass", CHAIN_CAP, None), g, True, "true-bypass-fifo", CHAIN_CAP, limit=3,
+             spec_init=CHAIN_INIT)
+    if not any(v["clause"] == "enq_rdy" and [len(b) for b in v["q"]] == [1, 0] for v in r["violations"]):
+        raise MachineryError("walk canary: a true bypass FIFO was not told apart from the chain in the finding state")
+    res.note("chain_walk_canaries_rejected", 2)
+
+
 def _walk_canaries(res):
     n = 0
     for kind, cap, fault in (("normal", 3, "drop"), ("pipe", 3, "swap"), ("pipe", 2, "rdy"), ("normal", 3, "rdy"),
@@ -441,7 +718,8 @@ def _event(obs, eo, m, do):
     n = lambda v: -1 if v is None else int(v)
     ev = {"k": "cycle", "eo": int(eo), "m": int(m) if eo else 0, "do": int(do), "er": b(obs["enq_rdy"]),
           "dr": b(obs["deq_rdy"]), "ex": int(obs["enq_xfer"]), "dx": int(obs["deq_xfer"]), "dm": n(obs["deq_msg"]),
-          "c": n(obs["count"]), "c2": n(obs["count2"]), "bad": obs.get("illegal", "") or "", "pk": []}
+          "c": n(obs["count"]), "c2": n(obs["count2"]), "bad": obs.get("illegal", "") or "", "pk": [],
+          "st": list(obs["st2"]) if obs.get("st2") is not None else []}
     if "order" in obs:
         o = obs["order"]
         ev["pk"] = [int(o.index("e") < o.index("p")), int(o.index("d") < o.index("p")), int(bool(obs["peek_rdy"])),
@@ -474,7 +752,7 @@ def record(dut, R, length, has_reset, kind, cap):
             raise
         except Exception as e:              # the simulated queue itself crashed: the history ends here
             ev.append({"k": "cycle", "eo": int(eo), "m": serial if eo else 0, "do": int(do), "er": 2, "dr": 2, "ex": 0,
-                       "dx": 0, "dm": -1, "c": -1, "c2": -1, "bad": "raises-" + type(e).__name__, "pk": []})
+                       "dx": 0, "dm": -1, "c": -1, "c2": -1, "bad": "raises-" + type(e).__name__, "pk": [], "st": []})
             break
         ev.append(_event(obs, eo, serial, do))
         if obs["enq_xfer"] or (eo and R.random() < 0.1):     # a producer may also withdraw an offer
@@ -484,10 +762,10 @@ def record(dut, R, length, has_reset, kind, cap):
 
 def _trace_job(job):
     import c17_duts
-    name, cap, idx, length, has_reset = job
+    name, cap, idx, length, has_reset, model = job
     entry = next(e for e in c17_duts.catalogue() if e.name == name)
     dut = _seeded_make(entry, cap, "trace%d" % idx)
-    t = record(dut, rng("c17/%s/%d/%d" % (name, cap, idx)), length, has_reset, entry.kind, cap)
+    t = record(dut, rng("c17/%s/%d/%d" % (name, cap, idx)), length, has_reset, model, cap)
     t["dut"] = name
     t["idx"] = idx
     if hasattr(dut, "block_order"):
@@ -495,7 +773,7 @@ def _trace_job(job):
     return t
 
 
-def _traces(res, cat, eff, caps, big_caps, per, lmin, lmax):
+def _traces(res, cat, eff, caps, big_caps, per, lmin, lmax, models):
     R = rng("c17-lengths")
     jobs = []
     for e in cat:
@@ -504,7 +782,7 @@ def _traces(res, cat, eff, caps, big_caps, per, lmin, lmax):
             cs += list(big_caps)
         for c in cs:
             for i in range(per):
-                jobs.append((e.name, c, i, R.randint(lmin, lmax), eff[e.name]))
+                jobs.append((e.name, c, i, R.randint(lmin, lmax), eff[e.name], models.get((e.name, c), e.kind)))
     with _pool() as ex:
         traces = list(ex.map(_trace_job, jobs, chunksize=2))
     nev = sum(len(t["ev"]) for t in traces)
@@ -529,8 +807,8 @@ def _traces(res, cat, eff, caps, big_caps, per, lmin, lmax):
             raise MachineryError("vacuous trace for %s cap=%d" % (t["dut"], t["cap"]))
         if err != "ok":
             e = t["ev"][pos - 1]
-            key = "trace:%s:cap=%d:%s" % (t["dut"], t["cap"], err)
-            res.violation(key, "%s (kind %s, capacity %d): %s at cycle %d of a random offer history: %s"
+            key = "trace:%s:cap=%d:%s%s" % (t["dut"], t["cap"], "chain:" if t["kind"] == CHAIN else "", err)
+            res.violation(key, "%s (model %s, capacity %d): %s at cycle %d of a random offer history: %s"
                           % (t["dut"], t["kind"], t["cap"], err, pos, e),
                           {"dut": t["dut"], "cap": t["cap"], "idx": t["idx"], "clause": err, "event": pos,
                            "prefix": t["ev"][max(0, pos - 12):pos]})
@@ -545,6 +823,14 @@ def _traces(res, cat, eff, caps, big_caps, per, lmin, lmax):
     res.note("trace_boundary_hits", {"full": full_hits, "enq_into_full_pipe": pipe_hits, "bypass_through_empty": byp_hits})
     if not (full_hits and pipe_hits and byp_hits):
         raise MachineryError("random histories never reached a boundary case: %s" % res.notes["trace_boundary_hits"])
+    ch = [t for t, v in zip(traces, verdicts) if t["kind"] == CHAIN and v[0] == "ok"]
+    if ch:
+        stall = sum(1 for t in ch for e in t["ev"] if e["k"] == "cycle" and e["c"] == 1 and e["er"] == 0)
+        byp2 = sum(1 for t in ch for e in t["ev"] if e["k"] == "cycle" and e["c"] == 0 and e["ex"] and e["dx"])
+        res.note("chain_trace_hits", {"enq_rdy_low_holding_one": stall, "bypass_through_both_stages": byp2})
+        if not (stall and byp2):
+            raise MachineryError("chain histories never reached the finding state / the double bypass: %s"
+                                 % res.notes["chain_trace_hits"])
     ok = [t for t, v in zip(traces, verdicts) if v[0] == "ok"]
     if ok:
         t = ok[len(ok) // 2]
@@ -588,12 +874,40 @@ def _trace_canaries(res, ok):
         t = record(FaultyDut(kind, cap, fault), rng("c17-faulty-%s-%s" % (kind, fault)), 300, True, kind, cap)
         can.append(t)
         what.append(("faulty", fault))
+    # histories accepted under the chain model: the finding state must not be blurred
+    want = {}
+    for t in [t for t in ok if t["kind"] == CHAIN][:2]:
+        ev = t["ev"]
+        i = next(k for k, e in enumerate(ev) if e["k"] == "cycle" and e["c"] == 1 and e["er"] == 0)
+        j = next(k for k, e in enumerate(ev) if e["k"] == "cycle" and e["st"] == [1, 0])
+        for tag, clause in (("er", "enq-rdy-high-but-kind-says-not-ready"), ("st", "wrong-stage-occupancy"),
+                            ("as-kind", "enq-rdy-low-but-kind-says-ready")):
+            c = {"kind": t["kind"], "cap": t["cap"], "ev": copy.deepcopy(ev)}
+            if tag == "er":          # ready claimed in the finding state (what the advertised kind would do)
+                c["ev"][i]["er"] = 1
+            elif tag == "st":        # the single message reported in the other stage
+                c["ev"][j]["st"] = [0, 1]
+            else:                    # the same history judged by Fifo.tla of the advertised kind
+                c["kind"] = "bypass"
+            want[len(can)] = clause
+            can.append(c)
+            what.append(("chain", tag))
+    t = record(FaultyDut("bypass", CHAIN_CAP, None), rng("c17-true-fifo-as-chain"), 300, True, CHAIN, CHAIN_CAP)
+    want[len(can)] = "enq-rdy-high-but-kind-says-not-ready"
+    can.append(t)
+    what.append(("chain", "true-bypass-fifo"))
+    t = record(ChainSoft("dup"), rng("c17-chain-dup"), 300, True, CHAIN, CHAIN_CAP)
+    can.append(t)
+    what.append(("chain", "dup"))
     if len(can) < 10:
         raise MachineryError("too few canary traces (%d)" % len(can))
     _, cv = tlc.validate_traces("FifoTrace", {"traces": can})
     acc = [what[i] for i, v in enumerate(cv) if v[0] == "ok"]
     if acc:
         raise MachineryError("canary traces accepted by FifoTrace: %s" % acc[:5])
+    for i, clause in want.items():
+        if cv[i][0] != clause:
+            raise MachineryError("canary trace %s rejected as %s, expected %s" % (what[i], cv[i][0], clause))
     res.note("trace_canaries_rejected", len(can))
     res.note("trace_canary_clauses", sorted({v[0] for v in cv}))
 
@@ -632,6 +946,24 @@ def _probe_reset(res, cat):
 
 # ============================================================================================
 
+class _Locked:
+    """Result proxy for the phases that run in threads: one call at a time."""
+
+    def __init__(self, res):
+        import threading
+        self._res, self._lock = res, threading.Lock()
+
+    def __getattr__(self, name):
+        f = getattr(self._res, name)
+        if not callable(f):
+            return f
+
+        def call(*a, **kw):
+            with self._lock:
+                return f(*a, **kw)
+        return call
+
+
 def _clean_replay_dir():
     from common import VERIF
     d = os.path.join(VERIF, "replay", "C17")
@@ -654,17 +986,27 @@ def run(res, tier):
         ph[name] = round(time.time() - t0, 1)
         t0 = time.time()
 
-    _model_check(res, (1, 2, 3) if quick else (1, 2, 3, 4, 5), (1, 2) if quick else (1, 2, 3, 4), 5 if quick else 7)
-    lap("model_check")
-    _load_graphs(res, caps)
-    lap("dump_graphs")
+    # the TLC runs of parts 1 and 5 and the graph dumps are independent of each other: run them side by side
+    lres = _Locked(res)
+    _par(lambda f: f(), [
+        lambda: _model_check(lres, (1, 2, 3) if quick else (1, 2, 3, 4, 5), (1, 2) if quick else (1, 2, 3, 4),
+                             5 if quick else 7),
+        lambda: _model_check_chain(lres, 5 if quick else 7),
+        lambda: _load_graphs(lres, caps),
+        lambda: _load_chain_graph(lres)], nthreads=4)
+    _kind_deviations(res, "bypass")
+    lap("model_check_and_graph_dumps")
     cat = c17_duts.catalogue()
+    for e in cat:
+        if e.chain and (e.chain != CHAIN or e.caps != (CHAIN_CAP,) or e.kind != "bypass"):
+            raise MachineryError("no chain model for %s" % e.name)
     eff = _probe_reset(res, cat)
-    _graph_walks(res, cat, caps, eff)
+    models = _graph_walks(res, cat, caps, eff)
     _walk_canaries(res)
+    _chain_walk_canaries(res)
     lap("walks")
     ok = _traces(res, cat, eff, (1, 2, 3, 4, 5), (7,) if quick else (6, 7, 8, 13, 16), 2 if quick else 24,
-                 200, 500 if quick else 2000)
+                 200, 500 if quick else 2000, models)
     lap("traces")
     _trace_canaries(res, ok)
     lap("trace_canaries")
@@ -679,6 +1021,10 @@ def run(res, tier):
                "independent of the queue's outputs")
     res.assume("occupancy of classes without a count port is read from their full bits / deque; "
                "valrdy NormalQueueRTL: count = num_entries - num_free_entries")
+    res.assume("enrdy BypassQueue2RTL: when it deviates from Fifo.tla(bypass, 2) it is validated against FifoChain.tla "
+               "(two one-entry bypass queues in series, stage occupancy read from q1.full / q2.full); the deviations "
+               "of that model from the advertised kind are computed from the two TLC state graphs and reported as "
+               "kind-rule:* violations")
     res.assume("the valid bit of an en/rdy send port (enrdy_queues deq) is observable only in cycles where the "
                "consumer is ready")
 
